@@ -17,15 +17,13 @@ ASSUME = [
     "posting lists handed to the merge nodes are strictly ascending; NOT borders satisfy lo >= 1 in reverse "
     "order and hi+1 < 2^32 (guaranteed by getLIDsBorders: minLID >= 1, maxLID < Len())",
     "one fraction per search (the cross-fraction merge of seq.MergeQPRs belongs to C16/C19)",
-    "PARTIAL: the composition theorem search_model = search_spec is not proved (nodes, OR-fold, borders, LID table "
-    "and the limit/total loop are); the equation is evaluated on every generated request instead",
 ]
 RULE = ("random trees of real merge nodes (AND/OR/NAND/NOT, depth <= 4, both directions) over shaped static "
         "posting lists; BuildORTree over 0-9 lists; random corpora (1-40 docs, a few of 300-1500 (quick) / 1000-3000 plus two sealed ones above 4096 IDs (thorough), equal "
-        "MIDs, extreme RIDs, 1-4 out-of-order bulks with a search in between) in real active / sealed / "
+        "MIDs, extreme RIDs, documents carrying the same token 2-3 times, 1-4 out-of-order bulks with a checked search between bulks on all tokens / on the tokens of the next bulk) in real active / sealed / "
         "sealed-and-reloaded fractions, 8-12 requests each (boolean trees with NOT at any depth over literal, "
         "prefix, suffix leaves; [from,to] around the stored MIDs incl. 0 and 2^64-1 and from>to; both orders; "
-        "limits 0, 1, n, >n; with/without total); getLIDsBorders on the same fractions. non-trivial = node tree "
+        "limits 0, 1, n, >n; with/without total; histogram intervals 1..2^40); getLIDsBorders on the same fractions. non-trivial = node tree "
         "with an operator and non-empty output / corpus with a non-empty answer to a query with an operator / "
         "border interval that is non-empty and not everything; distinct by input")
 
